@@ -525,7 +525,9 @@ def _rand_alset(rng, big=False):
         rr, qq = rng.randrange(1, 4), rng.randrange(1, 4)
         for _ in range(k):
             ps.append((rr, qq))
-            rr += rng.choice([1, 1, 2])
+            # now and then one reference label is paired with two query labels (and, as before, one query label with two
+            # reference labels): legal input for the comparer
+            rr += rng.choice([0, 1, 1, 1, 2]) if not big else rng.choice([1, 1, 2])
             qq += rng.choice([0, 1, 1, 2]) if not big else rng.choice([0, 0, 1])
         out.append((q, r, ps))
     return out
